@@ -75,6 +75,7 @@ type vnet struct {
 	advFree  bool   // no adversary in this run
 	backHome string // an honest node sent the item back to its origin
 	lostEntry string // a relay dropped a verified entry from the list it forwards
+	fetches   []fetchReq // parent-fetch requests the nodes sent to their peers
 	silent bool                      // warm-up item: no trace lines
 	old    map[int][]*pb.Gossiper    // genuine entries honest nodes signed for the warm-up item, by named node
 }
@@ -104,7 +105,17 @@ func (s *netStub) GossipTrx(ctx context.Context, in *pb.TrxMsgGossip, _ ...grpc.
 	return &emptypb.Empty{}, nil
 }
 func (s *netStub) GetVertex(ctx context.Context, in *pb.SignedHash, _ ...grpc.CallOption) (*pb.Vertex, error) {
+	// what a node signs when it asks its peers for a missing parent is seen by those peers (one of them may be
+	// the adversary)
+	s.net.mux.Lock()
+	s.net.fetches = append(s.net.fetches, fetchReq{src: s.src, dst: s.dst, req: proto.Clone(in).(*pb.SignedHash)})
+	s.net.mux.Unlock()
 	return nil, fmt.Errorf("not served")
+}
+
+type fetchReq struct {
+	src, dst int
+	req      *pb.SignedHash
 }
 
 // vnetPipeSize: buffer of the notary -> gossip hand-over (800 in cmd/node)
@@ -1095,6 +1106,63 @@ func init() {
 			}
 			v.close()
 		}
+		// ---- bait: the adversary (1) knows an item before the victim (2) does, sends the victim a vertex that
+		// names the item as its parent, watches the victim ask its peers for that parent, and then relays the
+		// item listing the victim with the signature taken from that request. A signature given for something
+		// else (a fetch request) must not count as "the victim already has the item".
+		{
+			adj := [][]int{{1, 2}, {0, 2}, {0, 1, 3}, {2}}
+			v := newVnet(c, 4, adj, []bool{true, false, true, true}, false)
+			v.silent = true
+			v.originate(0)
+			var toVictim *qmsg
+			for i := range v.queue {
+				if v.queue[i].dst == 2 {
+					toVictim = &v.queue[i]
+				}
+			}
+			if toVictim != nil {
+				honestCopy := *toVictim
+				v.queue = nil
+				adv := v.nodes[1].w
+				item := v.item
+				itemV := gossip.VerifMapProtoToVertex(honestCopy.vrx.Vertex)
+				bt, _ := transaction.New("bait", spice.Melange{}, []byte("bait"), v.w.wallets[0].Address(), recSigner{v.w.wallets[1]})
+				bait, _ := accountant.NewVertex(bt, item, item, itemV.Weight+1, recSigner{adv})
+				d, sg := recSigner{adv}.Sign(gossip.VerifGossiperMessage(adv.Address(), bait.Hash))
+				v.gsp[2].Server().GossipVrx(context.Background(), &pb.VrxMsgGossip{Vertex: gossip.VerifMapVertexToProto(&bait),
+					Gossipers: []*pb.Gossiper{{Address: adv.Address(), Digest: d[:], Signature: sg}}})
+				var req *pb.SignedHash
+				for i := 0; i < 2000 && req == nil; i++ {
+					v.mux.Lock()
+					for _, f := range v.fetches {
+						if f.src == 2 && f.dst == 1 && bytes.Equal(f.req.Data, item[:]) {
+							req = f.req
+						}
+					}
+					v.mux.Unlock()
+					time.Sleep(time.Millisecond)
+				}
+				v.settle()
+				v.queue = nil
+				c.Rep.Evals++
+				c.Count("bait." + map[bool]string{true: "fetch-request-seen", false: "no-fetch-request"}[req != nil])
+				c.Distinct("bait")
+				if req != nil {
+					forged := &pb.VrxMsgGossip{Vertex: proto.Clone(honestCopy.vrx.Vertex).(*pb.Vertex),
+						Gossipers: append(append([]*pb.Gossiper{}, honestCopy.vrx.Gossipers...), &pb.Gossiper{Address: req.Address, Digest: req.Hash, Signature: req.Signature})}
+					v.queue = []qmsg{{src: 1, dst: 2, vrx: forged}, honestCopy}
+					for steps := 0; len(v.queue) > 0 && steps < 40; steps++ {
+						v.deliver(0)
+					}
+					if !v.hasItem(2) || !v.hasItem(3) {
+						c.Violate("C12", "fetch-request-signature-accepted-as-gossiper-entry", fmt.Sprintf("the adversary listed the victim with the signature of the victim's own parent-fetch request: victim holds the item: %v, the node behind it: %v", v.hasItem(2), v.hasItem(3)),
+							map[string]interface{}{"section": "gossip", "scenario": "bait"})
+					}
+				}
+			}
+			v.close()
+		}
 		// ---- two items out of order: the child vertex reaches a relay before its parent
 		for rep := 0; rep < 2; rep++ {
 			adj := [][]int{{1}, {0, 2}, {1}}
@@ -1137,7 +1205,12 @@ func init() {
 			if e2 != nil {
 				out = "rejected"
 			}
-			c.Line("GDELIVER 0 | 1 %s | %s", out, v.settle())
+			fwd := v.settle()
+			c.Line("GDELIVER 0 | 1 %s | %s", out, fwd)
+			if fwd != "-" {
+				c.Violate("C11", "vertex-forwarded-before-own-ledger-accepted-it", "the child vertex reached relay 1 before its parent (its ledger parks it, handler result: "+out+"): the relay forwarded it all the same: "+fwd,
+					map[string]interface{}{"section": "gossip", "scenario": "child-before-parent"})
+			}
 			time.Sleep(20 * time.Millisecond) // the relay's fetch of the missing parent from its peers has failed by now
 			v.gsp[1].Server().GossipVrx(context.Background(), m1.vrx) // then the parent (not part of the item's trace)
 			v.settle()
